@@ -216,6 +216,42 @@ CHECKS = {
             "State merging guarded by an unmerged enumeration. iterm2-as-cell-content terminals, resize and the WHOLE "
             "method are not covered; urwid 2.6.16 as installed.",
             "DESIGN.md 3/C18"),
+    "C08": ("model_checking",
+            "explicit-state BFS over iterator operation histories to the fixpoint against a reference model of the docs",
+            "Explicit-state BFS over histories of {next, seek(o, START|CURRENT|END), set_frame_duration, set_padding "
+            "(exact, aligned absolute, aligned terminal-relative), set_render_args (compatible / incompatible), "
+            "set_render_size, close, read loop} on real RenderIterators (definite 2-3 frames and INDEFINITE streams, loops "
+            "in {-1,1,2}, cache False/True/n-1/n, static and DYNAMIC duration), each transition replayed on fresh real "
+            "objects and compared with a reference model written from the documentation: yielded Frame (number, "
+            "duration, size, output), loop countdown, raised exception type, state unchanged after a rejected operation, "
+            "renderable.tell() untouched, pending seeks of INDEFINITE sources handed over exactly once. Runs to the "
+            "fixpoint of (implementation canon, model state); merging cross-checked by unmerged enumeration.",
+            "Harness renderable (vlib/renderables.py) is a pure function of (frame, size, duration, args); reference "
+            "model vlib/c08_model.py trusted; alphabets and bounds in the evidence file.",
+            "DESIGN.md 3/C08, B.1"),
+    "C09": ("model_checking",
+            "explicit-state BFS on a pair (cached, uncached) driven in lock step; relational oracle",
+            "Explicit-state BFS over the C08 operation alphabet on a PAIR of real iterators (cache on / cache off) "
+            "driven in lock step, cache in {True, False, n-1, n, n+1}, loops {2,3,-1}, static and DYNAMIC duration, with "
+            "render-size / duration / render-args / padding changes mid-iteration; and the image pair "
+            "ImageIterator(cached=True|False|k) over {next, seek, image-size changes among fixed sizes and a dynamic one "
+            "with a terminal resize, close} on a multi-frame GIF for each render style. Oracle: every yielded frame "
+            "identical in the pair; under unchanged (size, duration, args) the cached render iterator renders each "
+            "frame number at most once (render counter of the harness renderable).",
+            "Relational check: no hand-written expectation; the uncached twin is the reference. Bounds in the evidence.",
+            "DESIGN.md 3/C09"),
+    "C10": ("model_checking",
+            "explicit-state BFS over renderable/iterator histories x exhaustive fault index enumeration",
+            "Explicit-state BFS over histories of {render, str, draw still/animated, create iterator (constructor / "
+            "_from_render_data_ with finalize True/False and caller-owned data), next, seek, set_*, close, close again, "
+            "drop reference + gc, finalize caller data} on an instrumented harness renderable (definite and "
+            "INDEFINITE), x a fault injected into the k-th _render_, the k-th _get_render_data_ or size validation for "
+            "all k (RenderError, StopIteration, AttributeError, KeyboardInterrupt). The harness keeps strong references "
+            "to every RenderData so __del__ cannot mask a missing finalization. Oracle per data object: finalize count "
+            "<= 1 always, == 1 once its operation / iterator is over, == 0 for caller-owned data; no _render_ with "
+            "finalized data; closed iterators stop / raise FinalizedIteratorError; close() and finalize() idempotent.",
+            "One fault per history; virtual stdout/clock for draw(); bounds in the evidence file.",
+            "DESIGN.md 3/C10"),
 }
 
 PENDING_REASON = "check not built yet in this round (design in DESIGN.md section 3); not claimed"
